@@ -164,8 +164,11 @@ func evalVar(c vCase) *vMismatch {
 		root += "    cmds:\n      - echo \"GOT=$E\"\n"
 		files["Taskfile.yml"] = root
 		args = []string{"target"}
-		if b("os") {
+		switch s("os") {
+		case "set":
 			env = append(env, "E=os")
+		case "empty":
+			env = append(env, "E=")
 		}
 		if b("experiment") {
 			env = append(env, "TASK_X_ENV_PRECEDENCE=1")
